@@ -3,9 +3,141 @@
 // =================================================================================================
 // C38  LP staking rewards: the GT reward amount  (programs/liquidity-provider/src/lib.rs ::
 //      calculate_gt_reward_amount; private free function, extracted by text)
-//      NOT covered here: compute_time_weighted_apy (iterator adapters + saturating sums), unstake paths.
+//      and compute_time_weighted_apy (the `.iter().take(n)` loop through rule R9).
+//      NOT covered here: unstake paths.
 // =================================================================================================
+//@const programs/liquidity-provider/src/lib.rs :: APY_BUCKETS_U8 :: u8 = 53
+//@const programs/liquidity-provider/src/lib.rs :: APY_LAST_INDEX_U8 :: u8 = APY_BUCKETS_U8 - 1
+//@const programs/liquidity-provider/src/lib.rs :: APY_BUCKETS :: usize = APY_BUCKETS_U8 as usize
+//@const programs/liquidity-provider/src/lib.rs :: APY_LAST_INDEX :: usize = APY_LAST_INDEX_U8 as usize
+//@const programs/liquidity-provider/src/lib.rs :: SECONDS_PER_WEEK :: u128 = 7 * 24 * 3600
 verus! {
+pub const APY_BUCKETS: usize = 53;
+pub const APY_LAST_INDEX: usize = 52;
+pub const SECONDS_PER_WEEK: u128 = 604800;
+pub assume_specification<T, Er> [core::result::Result::<T, Er>::unwrap_or] (r: core::result::Result<T, Er>, d: T) -> (o: T)
+    ensures o == (match r { Ok(x) => x, Err(_) => d });
+
+// ---- the statement: the APY of a second is the weekly bucket of that second, weeks past the last bucket use the last
+pub open spec fn week() -> int { 604800 }
+/// APY bucket that applies during week number w (0-based) of a stake
+pub open spec fn bucket(g: Seq<u128>, w: int) -> int { if w < 52 { g[w] as int } else { g[52] as int } }
+/// sum over the first t elapsed seconds of the bucket of each second
+pub open spec fn sec_sum(g: Seq<u128>, t: nat) -> int decreases t {
+    if t == 0 { 0 } else { sec_sum(g, (t - 1) as nat) + bucket(g, (t - 1) / week()) }
+}
+/// the same sum over whole weeks
+pub open spec fn week_sum(g: Seq<u128>, w: nat) -> int decreases w {
+    if w == 0 { 0 } else { week_sum(g, (w - 1) as nat) + bucket(g, w - 1) * week() }
+}
+pub proof fn lemma_week_sum_nonneg_mono(g: Seq<u128>, a: nat, b: nat)
+    requires g.len() == 53, a <= b
+    ensures 0 <= week_sum(g, a) <= week_sum(g, b)
+    decreases b
+{
+    if b > 0 {
+        lemma_mul_nonnegative(bucket(g, b - 1), week());
+        if a < b { lemma_week_sum_nonneg_mono(g, a, (b - 1) as nat); } else { lemma_week_sum_nonneg_mono(g, (a - 1) as nat, (b - 1) as nat); }
+    }
+}
+/// seconds of week w: sec_sum(w weeks + r seconds) = week_sum(w) + r x bucket(w)   (r up to a whole week)
+pub proof fn lemma_sec_week(g: Seq<u128>, w: nat, r: nat)
+    requires g.len() == 53, r <= week()
+    ensures sec_sum(g, (w * week() + r) as nat) == week_sum(g, w) + r * bucket(g, w as int)
+    decreases w, r
+{
+    lemma_mul_nonnegative(w as int, week());
+    if r == 0 {
+        lemma_mul_basics(bucket(g, w as int));
+        if w > 0 {
+            lemma_sec_week(g, (w - 1) as nat, week() as nat);
+            lemma_mul_is_distributive_sub_other_way(week(), w as int, 1);
+            lemma_mul_is_commutative(week(), bucket(g, w - 1));
+            assert((w - 1) * week() + week() == w * week());
+        }
+    } else {
+        lemma_sec_week(g, w, (r - 1) as nat);
+        let t = w * week() + r;
+        // the second t-1 lies in week w
+        lemma_fundamental_div_mod_converse(t - 1, week(), w as int, r - 1);
+        lemma_mul_is_distributive_sub_other_way(bucket(g, w as int), r as int, 1);
+    }
+}
+/// weeks past the last bucket use the last bucket
+pub proof fn lemma_week_tail(g: Seq<u128>, w: nat)
+    requires g.len() == 53, w >= 52
+    ensures week_sum(g, w) == week_sum(g, 52) + (g[52] as int) * (week() * (w - 52))
+    decreases w
+{
+    if w == 52 { lemma_mul_basics(g[52] as int); }
+    else {
+        lemma_week_tail(g, (w - 1) as nat);
+        lemma_mul_is_distributive_add(g[52] as int, week() * (w - 1 - 52), week());
+        lemma_mul_is_distributive_add(week(), w - 1 - 52, 1);
+    }
+}
+/// the exact time-weighted sum as the code accumulates it
+pub proof fn lemma_apy_decomposition(g: Seq<u128>, t: nat)
+    requires g.len() == 53
+    ensures ({
+        let fw = t / (week() as nat); let rem = t % (week() as nat); let cf = if fw < 52 { fw } else { 52 };
+        &&& sec_sum(g, t) == week_sum(g, cf) + (if fw > 52 { (g[52] as int) * (week() * (fw - 52)) } else { 0 }) + (g[cf as int] as int) * rem
+        &&& 0 <= week_sum(g, cf)
+        &&& fw > 52 ==> 0 <= (g[52] as int) * (week() * (fw - 52)) && 0 <= week() * (fw - 52)
+        &&& 0 <= (g[cf as int] as int) * rem
+        &&& fw > 52 ==> week() * (fw - 52) <= t
+        &&& rem == 0 ==> (g[cf as int] as int) * rem == 0
+    })
+{
+    let fw = t / (week() as nat); let rem = t % (week() as nat); let cf: nat = if fw < 52 { fw } else { 52 };
+    lemma_fundamental_div_mod(t as int, week()); lemma_mod_bound(t as int, week());
+    lemma_mul_is_commutative(week(), fw as int);
+    lemma_sec_week(g, fw, rem);
+    lemma_mul_is_commutative(rem as int, bucket(g, fw as int));
+    if fw > 52 { lemma_week_tail(g, fw); lemma_mul_nonnegative(week(), fw - 52); lemma_mul_nonnegative(g[52] as int, week() * (fw - 52)); }
+    lemma_week_sum_nonneg_mono(g, 0, cf);
+    lemma_mul_nonnegative(g[cf as int] as int, rem as int);
+    lemma_mul_basics(g[cf as int] as int);
+    if fw > 52 { lemma_mul_is_distributive_sub(week(), fw as int, 52); lemma_mul_nonnegative(week(), fw as int); }
+}
+/// "APY gradients within the cap": an average of buckets that are all at most `cap` is at most `cap`
+pub proof fn lemma_average_within_cap(g: Seq<u128>, t: nat, cap: int)
+    requires g.len() == 53, t > 0, forall|i: int| 0 <= i < 53 ==> g[i] <= cap
+    ensures 0 <= sec_sum(g, t) <= cap * t, sec_sum(g, t) / (t as int) <= cap
+    decreases t
+{
+    let prev = sec_sum(g, (t - 1) as nat);
+    if t > 1 { lemma_average_within_cap(g, (t - 1) as nat, cap); } else { lemma_mul_basics(cap); assert(prev == 0); }
+    assert(0 <= prev <= cap * (t - 1));
+    lemma_div_pos_is_pos(t - 1, week());
+    let b = bucket(g, (t - 1) / week());
+    assert(0 <= b <= cap);
+    assert(sec_sum(g, t) == prev + b);
+    lemma_mul_is_distributive_sub(cap, t as int, 1);
+    assert(cap * t == cap * (t - 1) + cap);
+    lemma_mul_is_commutative(cap, t as int);
+    lemma_div_is_ordered(sec_sum(g, t), cap * t, t as int);
+    lemma_div_multiples_vanish(cap, t as int);
+}
+
+//@unit C38.compute_time_weighted_apy
+//@ file programs/liquidity-provider/src/lib.rs
+//@ fn compute_time_weighted_apy
+//@ sig fn compute_time_weighted_apy( stake_start_time: i64, now: i64, apy_gradient: &[u128; APY_BUCKETS], ) -> u128
+//@ top :: proof { if now > stake_start_time { lemma_apy_decomposition(apy_gradient@, (now - stake_start_time) as nat); } }
+//@ loop 1: invariant apy_gradient@.len() == 53, capped_full <= 52, capped_full == (if full_weeks < 52 { full_weeks } else { 52 }), week_sum(apy_gradient@, _i9 as nat) <= u128::MAX ==> acc == week_sum(apy_gradient@, _i9 as nat), 0 <= week_sum(apy_gradient@, _i9 as nat),
+//@ after acc = acc.saturating_add(apy_value.saturating_mul(SECONDS_PER_WEEK)); :: proof { lemma_week_sum_nonneg_mono(apy_gradient@, _i9 as nat, (_i9 + 1) as nat); lemma_mul_nonnegative(apy_value as int, week()); }
+pub fn compute_time_weighted_apy(stake_start_time: i64, now: i64, apy_gradient: &[u128; APY_BUCKETS]) -> (r: u128)
+    requires
+        // call-site precondition: the elapsed time is representable (stake times are clock readings)
+        now as int - stake_start_time as int <= i64::MAX,
+    ensures
+        now <= stake_start_time ==> r == apy_gradient[0],
+        // the average over each elapsed second of that second's weekly bucket (whenever the exact sum is representable)
+        now > stake_start_time && sec_sum(apy_gradient@, (now - stake_start_time) as nat) <= u128::MAX
+            ==> r as int == sec_sum(apy_gradient@, (now - stake_start_time) as nat) / (now - stake_start_time),
+//@body
+
 /// reward before saturation: floor(floor(stake * apy_per_sec / U) * inv_cost_integral / U)
 pub open spec fn reward_raw(stake: int, apy: int, integral: int) -> int {
     mul_div_floor(mul_div_floor(stake, apy, uunit()), integral, uunit())
